@@ -6,7 +6,7 @@
    RSpec  every sequence of Depth renders of components on I/Os with different capabilities; RenderPure.       *)
 EXTENDS Styles, Json
 
-CONSTANT Depth
+CONSTANTS Depth, UseAligns
 VARIABLE hist
 hvars == <<vars, hist>>
 
@@ -18,6 +18,10 @@ MCValues == {"*"}
 MCOwnAll == OwnAll
 MCBorderAll == BorderAll
 MCValues2 == {"*", ""}
+\* tagged styles whose tags collide: the same name, different attributes
+MCStyled == {"header_cell_style"}
+MCRule == {"style"}
+MCTagged == {"hdr:bold", "hdr:red"}
 ValueFor(f, v) == IF v # "*" THEN v
                   ELSE IF f \in {"cell_format", "header_cell_format"} THEN "[{}]"
                   ELSE IF f \in {"cell_style", "header_cell_style", "style"} THEN "bold" ELSE "#"
@@ -31,7 +35,7 @@ HInit == Init /\ hist = <<>>
 SNext == /\ Len(hist) < Depth
          /\ \/ \E k \in Kinds : Make(k)
             \/ \E s \in 1..Len(styles), f \in OwnFields \cup BorderFields, v \in Values : Customise(s, f, ValueFor(f, v))
-            \/ \E s \in 1..Len(styles), m \in MCAligns : Align(s, m[1], m[2], m[3], m[4])
+            \/ \E s \in 1..Len(styles), m \in (IF UseAligns THEN MCAligns ELSE {}) : Align(s, m[1], m[2], m[3], m[4])
          /\ hist' = Append(hist, [op |-> last'.op, kind |-> last'.kind, s |-> last'.s, field |-> last'.field,
                                   value |-> last'.value, col |-> last'.col, a |-> last'.a, seq |-> last'.seq,
                                   eff |-> AllEffective'])
